@@ -402,6 +402,10 @@ func historyCase(c *core.Ctx, which string, i, nsteps int) {
 			c.Eval("")
 			continue
 		}
+		if !alive && watchdogOnly(res) {
+			c.Inconclusive(fmt.Sprintf("%s step %d: the build child was ended by the wall-clock watchdog (no fatal error, no deadlock in its dump)", id, st.N))
+			return
+		}
 		if !alive {
 			c.Violation(id, "", "build-process-died", map[string]any{"step": st.N, "history": e.Script(), "error": res.RunErr})
 			return
